@@ -78,13 +78,19 @@ def lockstep(run, rnd, thorough):
     n = 0
     # (..c: with user-defined edges on numerical Jacobians; ..f: started FAR from the optimum, so that chi^2 rises along the way -- un-damped
     #  Gauss-Newton is frame independent wherever it goes)
-    for name in ('se2', 'se3', 'r2', 'r3', 'se2b', 'se3b', 'se2c', 'r2c', 'se3c', 'se2f', 'se3f'):
+    #  ..n: NON-symmetric information matrices on the landmark edges ("any information": frame independence does not need symmetry)
+    for name in ('se2', 'se3', 'r2', 'r3', 'se2b', 'se3b', 'se2c', 'r2c', 'se3c', 'se2f', 'se3f', 'se2n', 'se3n'):
         for rep in range(6 if thorough else 2):
             seed = rnd.randrange(10 ** 6)
-            kind = {'se2': 'SE2', 'se3': 'SE3', 'r2': 'R2', 'r3': 'R3', 'se2b': 'SE2', 'se3b': 'SE3', 'se2c': 'SE2', 'r2c': 'R2', 'se3c': 'SE3', 'se2f': 'SE2', 'se3f': 'SE3'}[name]
+            kind = {'se2': 'SE2', 'se3': 'SE3', 'r2': 'R2', 'r3': 'R3', 'se2b': 'SE2', 'se3b': 'SE3', 'se2c': 'SE2', 'r2c': 'R2', 'se3c': 'SE3', 'se2f': 'SE2', 'se3f': 'SE3', 'se2n': 'SE2', 'se3n': 'SE3'}[name]
             far = name.endswith('f')
             es, vs, _ = graphs.make(kind, seed, custom=name.endswith('c'), n_landmarks=2, n_poses=(8 if name.endswith('b') else 5), closures=3, noise=0.05 if rep % 2 else 0.0,
                                     dt=(2.5 if far else 0.2), dr=(1.5 if far else 0.1), cross=True)
+            if name.endswith('n'):
+                for e in es:
+                    if hasattr(e, 'offset'):
+                        n_ = e.information.shape[0]
+                        e.information = e.information + 0.75 * np.triu(np.ones((n_, n_)), 1)
             # (of the user-defined edges only those that measure something relative are frame independent: range and relative pose)
             es = [e for e in es if not isinstance(e, (graphs.PriorEdge, graphs.MidpointEdge))]
             mag = rnd.choice([1.0, 1e3, 1e6]) if not name.endswith('c') else [3e3, 1e3, 1.0][rep % 3]
